@@ -138,7 +138,7 @@ pub fn run_probe(mode: &str, xdg: &Path, queries_file: &Path, env: &[(&str, Stri
 }
 
 pub fn run_check(ctx: &Ctx) {
-    ctx.set_rule("histories of sessions (repeated in-memory builds in this process, sequentially and concurrently from several threads; child processes pinned to 1, 2 and all CPUs, with and without a busy background load; cold child processes that open 2-16 in-memory sessions at the same moment; a first on-disk build under a private XDG_DATA_HOME, a reopen of it, a rebuild over it after the stored hash was made stale) all answer the same query set (every typable fact's own words, every single word, every 1-7 character prefix of every word (all terms of the prefix n-gram index), sampled pairs of short prefixes, random word pairs); oracle: for every query all sessions return the same outcome (constant description, value, unit, source, tokens, or the same error); non-trivial = queries whose words are all carried by >= 2 shipped constants; distinct by query text; an evaluation is one (session, query) answer");
+    ctx.set_rule("histories of sessions (repeated in-memory builds in this process, sequentially and concurrently from several threads; child processes pinned to 1, 2 and all CPUs, with and without a busy background load; cold child processes that open 2-16 in-memory sessions at the same moment; one database shared by 4-16 threads looking things up concurrently; a first on-disk build under a private XDG_DATA_HOME, a reopen of it, a rebuild over it after the stored hash was made stale) all answer the same query set (every typable fact's own words, every single word, every 1-7 character prefix of every word (all terms of the prefix n-gram index), sampled pairs of short prefixes, random word pairs); oracle: for every query all sessions return the same outcome (constant description, value, unit, source, tokens, or the same error); non-trivial = queries whose words are all carried by >= 2 shipped constants; distinct by query text; an evaluation is one (session, query) answer");
     ctx.assume("the schedule of tantivy's indexing threads is sampled by repetition, CPU pinning and background load, not enumerated");
     let qs = query_set(ctx.tier, ctx.seed);
     let queries: Vec<String> = qs.iter().map(|q| q.0.clone()).collect();
@@ -236,6 +236,33 @@ pub fn run_check(ctx: &Ctx) {
                 }
             }
             Err(e) => problems.push(format!("cold-concurrent#{}: {}", rep, e)),
+        }
+    }
+    // one database shared by several threads that look things up at the same moment (only while `Db` is `Sync`)
+    let nshared = ctx.tier.pick(1usize, 6);
+    for rep in 0..nshared {
+        let threads = [8usize, 16, 4][rep % 3];
+        match run_probe(&format!("shared:{}", threads), &work, &qfile, &[], None) {
+            Ok(lines) if lines.first().map(|l| l.starts_with("UNSUPPORTED")).unwrap_or(false) => {
+                ctx.put("shared_db_concurrent_lookups", json!("not applicable: Db is not Sync in this tree"));
+            }
+            Ok(lines) => {
+                let mut cur: Option<Session> = None;
+                for l in lines {
+                    if let Some(t) = l.strip_prefix("=== thread ") {
+                        if let Some(s) = cur.take() {
+                            sessions.push(s);
+                        }
+                        cur = Some(Session { name: format!("shared-db-concurrent-lookups#{}.{}of{}", rep, t, threads), answers: vec![] });
+                    } else if let Some(s) = cur.as_mut() {
+                        s.answers.push(l);
+                    }
+                }
+                if let Some(s) = cur.take() {
+                    sessions.push(s);
+                }
+            }
+            Err(e) => problems.push(format!("shared-db-concurrent-lookups#{}: {}", rep, e)),
         }
     }
     // on-disk: first build, reopen, rebuild over a stale hash, reopen again
